@@ -398,7 +398,8 @@ class C15B(EngineBase):
         r = streams.get("config")
         depth = r.choice([1, 1, 2, 3])
         exitk = r.choice(["crash", "crash", "crash", "exception", "return", "break", "normal",
-                          "generator_close", "decorator", "decorator_exception", "reuse_cm"])
+                          "generator_close", "decorator", "decorator_exception", "reuse_cm",
+                          "reenter_cm", "decorator_recursive"])
         return {
             "outer": r.choice(MODES),
             "outer_none": r.random() < 0.3,
@@ -525,6 +526,30 @@ class C15B(EngineBase):
                     if cfg["inner_set"] is None and get() != modes[level]:
                         checks.append(("mode-inside-block", f"level {level}: suspended generator"))
                     g.close()
+                elif cfg["exit"] == "reenter_cm" and level == len(modes) - 1:
+                    # the same manager object entered again while active
+                    cm = core.sr.default_tensordot_mode(modes[level])
+                    try:
+                        with cm:
+                            with cm:
+                                run_body()
+                    except (RuntimeError, AttributeError, TypeError):
+                        pass
+                elif cfg["exit"] == "decorator_recursive" and level == len(modes) - 1:
+                    @core.sr.default_tensordot_mode(modes[level])
+                    def rec(depth):
+                        if get() != modes[level] and cfg["inner_set"] is None:
+                            checks.append(("mode-inside-block", f"level {level} (recursive decorator)"))
+                        if depth:
+                            rec(depth - 1)
+                        else:
+                            run_body()
+                            if cfg["exit_at"] % 2:
+                                raise UserError("user code failed")
+                    try:
+                        rec(1 + cfg["exit_at"] % 2)
+                    except UserError:
+                        pass
                 elif cfg["exit"] == "reuse_cm" and level == len(modes) - 1:
                     # one manager object entered twice: whatever the second
                     # entry does (contextlib refuses it), the default survives
